@@ -178,6 +178,87 @@ def build() -> Check:
           f"the children map is built only from this invocation's updates: neither {sorted(mergers)} write it nor does the guard/marking read self.operations, "
           "so operations recorded by an earlier invocation under a context that completes now are never marked")
 
+    # R7: the verdict "orphaned" is monotone in time, so only positive verdicts may be remembered; a remembered negative verdict must be
+    # dropped whenever a set the positive verdict is read from grows
+    from sa.common import NEG_MEMO_FIXTURE, stale_negative_verdicts
+    fx = stale_negative_verdicts(ast.parse(NEG_MEMO_FIXTURE).body[0], "create_checkpoint")
+    if not fx[2]:
+        raise AnalysisError("negative-memo rule does not fire on its positive example")
+    preds, memo, stale = stale_negative_verdicts(sc.node, fn.name)
+    ck.analysed["guard_predicates"] = preds
+    ck.analysed["negative_memo_attrs"] = sorted(memo)
+    ck.floor("guard_predicates", len(preds), 1)
+    ck.ob("R7.no-stale-negative-verdict", c_cc, not stale, stale[0][1] if stale else f"predicates {preds}, negative memo attributes: {sorted(memo) or 'none'}")
+    for gname, why in stale[1:]:
+        ck.ob("R7.no-stale-negative-verdict", f"state.py:ExecutionState.{gname}", False, why)
+
+    # R3 (interpretive): the predicate that walks the parent links is interpreted on small link chains n0 -> n1 -> n2 -> n3 whose links are
+    # known from this invocation's updates or only from history, with the completed context at every level and in each set the verdict reads
+    import itertools
+
+    from sa.values import Const, DictVal, Obj, SeqVal, Sym, TypeRef
+    opc = prog.cls("lambda_service", "Operation")
+    pos_attrs, link_attrs = set(), set()
+    for pn in preds:
+        for n in ast.walk(sc.methods[pn].node):
+            if isinstance(n, ast.Compare) and len(n.ops) == 1 and isinstance(n.ops[0], ast.In):
+                c0 = n.comparators[0]
+                if isinstance(c0, ast.Attribute) and isinstance(c0.value, ast.Name) and c0.value.id == "self":
+                    pos_attrs.add(c0.attr)
+            if isinstance(n, ast.Call) and isinstance(n.func, ast.Attribute) and n.func.attr == "get" and isinstance(n.func.value, ast.Attribute) \
+                    and isinstance(n.func.value.value, ast.Name) and n.func.value.value.id == "self" and n.func.value.attr != "operations":
+                link_attrs.add(n.func.value.attr)
+            if isinstance(n, ast.Subscript) and isinstance(n.value, ast.Attribute) and isinstance(n.value.value, ast.Name) and n.value.value.id == "self" \
+                    and n.value.attr != "operations":
+                link_attrs.add(n.value.attr)
+    pos_attrs -= set(memo)
+    link_attrs -= set(memo) | pos_attrs
+    ck.analysed["verdict_sets"] = sorted(pos_attrs)
+    ck.analysed["link_maps"] = sorted(link_attrs)
+    walk = sc.methods[preds[0]] if preds else None
+    if walk is None or not pos_attrs or len(walk.node.args.args) != 2:
+        raise AnalysisError("orphan guard predicate (one parameter: the parent id) not found")
+    pname = walk.node.args.args[1].arg
+    all_attrs = {a for pn in preds for a in [_a.attr for _a in ast.walk(sc.methods[pn].node) if isinstance(_a, ast.Attribute) and isinstance(_a.value, ast.Name) and _a.value.id == "self"]}
+    sources = sorted(link_attrs) + ["<history>"]
+    n_sc = 0
+    bad_walk = []
+    for srcs in itertools.product(sources, repeat=3):
+        for pos in sorted(pos_attrs):
+            for depth in (0, 1, 2, 3, None):
+                def sf(it, state, srcs=srcs, pos=pos, depth=depth):
+                    o = Obj(sc, label="st")
+                    links = {a: {} for a in link_attrs}
+                    ops = {}
+                    for i, src in enumerate(srcs):
+                        if src == "<history>":
+                            op = Obj(opc, label=f"op{i}")
+                            op.fields.update(operation_id=Const(f"n{i}"), parent_id=Const(f"n{i + 1}"))
+                            ops[f"n{i}"] = op
+                        else:
+                            links[src][f"n{i}"] = Const(f"n{i + 1}")
+                    for a in all_attrs:
+                        if a.endswith("_lock"):
+                            o.fields[a] = Sym(a, TypeRef(prim="ext:threading.Lock"))
+                    for a in pos_attrs | set(memo):
+                        o.fields[a] = SeqVal("set", [Const(f"n{depth}")] if (a == pos and depth is not None) else [])
+                    for a in link_attrs:
+                        o.fields[a] = DictVal(dict(links[a]))
+                    o.fields["operations"] = DictVal(dict(ops))
+                    return o
+
+                trs = pm.run_function(walk, sf, lambda it, state: {pname: Const("n0")}, cell=("ancestor-walk", ""), while_iters=8,
+                                      ext_calls={"builtins.set": lambda it, a, k, n: SeqVal("set", list(a[0].items) if a and isinstance(a[0], SeqVal) else [])})
+                n_sc += 1
+                got = sorted({(t.value.key() if t.outcome == "return" else t.exc_class()) for t in trs})
+                want = ["True"] if depth is not None else ["False"]
+                if got != want:
+                    bad_walk.append(f"links n0->n1->n2->n3 known from {list(srcs)}, n{depth} in self.{pos}: verdict {got}, expected {want}"
+                                    if depth is not None else f"links from {list(srcs)}, nothing completed: verdict {got}, expected {want}")
+    ck.floor("ancestor_walk_scenarios", n_sc, 40)
+    ck.ob("R3.ancestor-walk-reaches-every-level", fn_construct(walk), not bad_walk,
+          (f"{len(bad_walk)}/{n_sc} scenarios: " + bad_walk[0]) if bad_walk else f"{n_sc} scenarios")
+
     # R5 / R6 from the executor table
     n_first = 0
     for name, ci in pm.executors.items():
